@@ -39,8 +39,40 @@ def replay_max_fa_period(info, ce):
     return dict(status='not-reproduced', detail='max_fa_period reports the largest-amplitude bin on %d battery records' % tried)
 
 
+def replay_round_trip(info, ce):
+    """inverse helper: reconstructs the padded record minus mean and Nyquist component and leaves the spectrum it was given (the
+    object's own cached spectrum) untouched"""
+    import eqsig
+    from eqsig.fns import frequency as fr
+    rng = np.random.RandomState(13)
+    for n in (4, 5, 8, 13, 16, 100):
+        for off in (0.0, 2.5):
+            x = rng.randn(n) + off
+            for dt in (0.01, 0.5):
+                s = eqsig.Signal(x.copy(), dt)
+                before = np.array(s.fa_spectrum, copy=True)
+                if info.get('via') == 'fas2values':
+                    rec = np.asarray(fr.fas2values(s.fa_spectrum, dt))
+                else:
+                    rec = np.asarray(fr.fas2signal(s.fa_spectrum, dt).values)
+                N = 2 * len(before)
+                pad = np.zeros(N)
+                pad[:n] = x
+                want = pad - np.mean(pad) - np.mean(pad * (-1.0) ** np.arange(N)) * (-1.0) ** np.arange(N)
+                inp = {'values': x.tolist(), 'dt': dt, 'history': ['F = s.fa_spectrum', '%s(F, dt)' % info.get('via'), 's.fa_spectrum']}
+                if not np.allclose(np.asarray(s.fa_spectrum), before, rtol=0, atol=1e-14 * max(1.0, np.max(np.abs(before)))):
+                    return dict(status='confirmed', observed={'bin0_before': str(before[0]), 'bin0_after': str(np.asarray(s.fa_spectrum)[0])},
+                                detail='the inverse helper modified the spectrum it was given: the object no longer reports dt x DFT of its record', input=inp)
+                if rec.shape != want.shape or np.max(np.abs(rec - want)) > 1e-9 * max(1.0, np.max(np.abs(want))):
+                    return dict(status='confirmed', observed={'max_abs_error': float(np.max(np.abs(rec - want))) if rec.shape == want.shape else 'shape'},
+                                detail='reconstruction is not the padded record minus its mean and Nyquist component', input=inp)
+    return dict(status='not-reproduced', detail='inverse helper reconstructs the record and leaves its argument alone on the battery')
+
+
 def replay(info, ce):
     import eqsig
+    if info.get('op') == 'round_trip':
+        return replay_round_trip(info, ce)
     if info.get('op') == 'max_fa_period':
         return replay_max_fa_period(info, ce)
     cls = getattr(eqsig, info.get('cls', 'Signal'))
